@@ -205,7 +205,7 @@ Section Counts.
     destruct (convert to_cat x) as [xc|] eqn:Hx; [|discriminate].
     intros [= <-]. exists yl, xc. cbn [k_classes k_count k_priors k_ncat k_catcount k_coef].
     repeat split; auto.
-    apply map_ext. intros c. cbn [odiv ROps]. rewrite !oofnat_R. reflexivity.
+    apply map_ext. intros c. rewrite <- !INR_IZR_INZ. reflexivity.
   Qed.
 
   Lemma categorical_probs_spec x y alpha m :
@@ -301,3 +301,6 @@ Section Counts.
         apply Rdiv_lt_0_compat; [pose proof (pos_INR c); lra | exact HD].
   Qed.
 End Counts.
+
+Lemma alpha_ok_true (a : R) : (0 <= a)%R -> alpha_ok ROps a = true.
+Proof. intros H. unfold alpha_ok. cbn [oltb o0 ROps]. apply negb_true_iff, Rltb_false. exact H. Qed.
